@@ -19,7 +19,26 @@ vars == <<p, pc, held>>
 
 Steps(k) == Trace[p[k]].steps
 
-Init == /\ p \in {<<i, j>> \in ProgIdx \X ProgIdx : i <= j /\ Trace[i].group = Trace[j].group}
+(* Lock-order discipline, the assumption on which the design model FsProto.tla proves freedom from deadlock: a        *)
+(* transaction that already holds locks acquires only (i) a larger inode number, (ii) a number it already holds, or   *)
+(* (iii) the number it has just allocated for a new object while holding the directory only (nobody can hold that     *)
+(* one and wait). Exempt and reported separately: acquisitions from dir.Apply under READDIRPLUS (known finding).      *)
+RECURSIVE Walk(_, _, _, _)
+Walk(i, k, hd, out) ==
+  LET steps == Trace[i].steps IN
+  IF k > Len(steps) THEN out
+  ELSE LET st == steps[k] IN
+       IF st.op = "rel" THEN Walk(i, k + 1, hd \ {st.inum}, out)
+       ELSE LET below == hd # {} /\ st.inum \notin hd /\ (\E h \in hd : h > st.inum)
+                fresh == Trace[i].call.proc \in {"CREATE", "MKDIR", "SYMLINK"} /\ Cardinality(hd) = 1
+                viol  == below /\ ~fresh /\ st.ctx # "apply"
+            IN Walk(i, k + 1, hd \cup {st.inum}, IF viol THEN Append(out, [id |-> Trace[i].id, step |-> k, inum |-> st.inum, held |-> hd]) ELSE out)
+OrderViolations(i) == Walk(i, 1, {}, <<>>)
+OrderCheck == /\ \A i \in ProgIdx : OrderViolations(i) = <<>> \/ PrintT("ORDER " \o ToJson(OrderViolations(i)))
+        /\ PrintT("PROGRAMS " \o ToString(Cardinality(ProgIdx)) \o " GROUPS " \o ToString(Cardinality(Groups)))
+
+Init == /\ OrderCheck
+        /\ p \in {<<i, j>> \in ProgIdx \X ProgIdx : i <= j /\ Trace[i].group = Trace[j].group}
         /\ pc = <<1, 1>>
         /\ held = <<>>
 
@@ -44,5 +63,4 @@ ReportDead ==
 
 Next == Step(1) \/ Step(2) \/ ReportDead
 Spec == Init /\ [][Next]_vars
-Post == PrintT("PROGRAMS " \o ToString(Cardinality(ProgIdx)) \o " GROUPS " \o ToString(Cardinality(Groups)))
 =============================================================================
